@@ -186,8 +186,13 @@ def rule_stop(chk, s):
     wakes = [n for n in g.nodes if n.kind == 'stmt' and any(len(c.args) == 1 and pat.is_const(c.args[0], 0) for _r, c in pat.method_calls(n.ast, 'reduce_time_left'))]
     okw = bool(wakes) and all(any(k == 'with' and 'self._lock' in src(getattr(a, 'context_expr', a)) for k, a in n.ctx) for n in wakes) and \
         all(any(Q.reaches(c_, w_) for w_ in wakes) for c_ in clr)
-    chk.ob('d', s.ref, 'after clearing the flag stop() disarms the idle wait of a generate_events that is being handled, under the lock the dispatcher publishes it under',
-           okw, loc(s, (wakes or clr or [f])[0].ast), discr='idle-loop-woken')
+    # … whoever calls stop(): the only reason not to is that no generate_events is being handled (the loop's own thread may be the one that idles next:
+    # stop() called in a generate_events handler of higher priority than the one that waits)
+    no_gen = pat.test_edge(lambda t, pol: pol == 'F' and 'generate_events' in src(t) and 'isinstance' in src(t))
+    pw = Q.escapes(g, clr, lambda n: n in wakes, avoid_edge=no_gen, exits=('exit', 'raise'), exc=()) if clr else None
+    chk.ob('d', s.ref, 'after clearing the flag stop() disarms the idle wait of a generate_events that is being handled, under the lock the dispatcher publishes it under, '
+                       'on every path (whichever thread stops)',
+           okw and pw is None, loc(s, (wakes or clr or [f])[0].ast), path=pat.path_lines(pw, clr[0]) if pw else None, discr='idle-loop-woken')
     # not running ⇒ nothing: no fire, no tick reachable on the not-running branch
     raises = [n for n in g.nodes if n.kind == 'stmt' and isinstance(n.ast, ast.Raise) and n.ast.exc is not None and
               src(n.ast.exc).replace(' ', '') == f'SystemExit({code})']
